@@ -155,12 +155,24 @@ impl ReadBackend for CachedBackend {
             // read full file, save to cache and return partial content
             match self.be.read_full(tpe, id) {
                 Ok(data) => {
-                    let range = offset as usize..(offset + length) as usize;
+                    let range = offset as usize..offset as usize + length as usize;
                     if let Err(err) = self.cache.write_bytes(tpe, id, &data.clone().into()) {
                         warn!(
                             "Error in cache backend writing {tpe:?},{id}: {}",
                             err.display_log()
                         );
+                    }
+                    // like the uncached backends, fail (instead of panicking) if the range exceeds the file
+                    if range.end > data.len() {
+                        return Err(RusticError::new(
+                            ErrorKind::Backend,
+                            "Failed to read `{length}` bytes at offset `{offset}` from file `{id}` of type `{tpe}`: the file has only `{size}` bytes.",
+                        )
+                        .attach_context("tpe", tpe.to_string())
+                        .attach_context("id", id.to_string())
+                        .attach_context("offset", offset.to_string())
+                        .attach_context("length", length.to_string())
+                        .attach_context("size", data.len().to_string()));
                     }
                     Ok(Bytes::copy_from_slice(&data.slice(range)))
                 }
